@@ -59,7 +59,7 @@ class Runner:
             ctx.sample({"suite": self.suite, "header": sess.header, "ops": sess.ops[:12]})
         for sig, detail, idx in fails:
             n = len(sess.ops) if idx is None else idx + 1
-            ctx.fail(sig, {"suite": self.suite, "header": sess.header, "ops": sess.ops[:n],
+            ctx.fail(sig, {"suite": self.suite, "fs_kind": sess.fs_kind, "header": sess.header, "ops": sess.ops[:n],
                            "detail": detail, "cfg": cfg.to_json() if cfg is not None else None,
                            "extra": extra or {}, "impl_out_tail": sess.out[max(0, n - 4):n]})
         if self.lines >= BATCH_LINES:
@@ -71,9 +71,10 @@ class Runner:
         self.scripts, self.impls, self.lines = [], [], 0
 
 
-def replay_session(obj: dict, fs_kind: str = "mem") -> Session:
-    """re-execute a recorded script (replay file) on the current tree"""
-    s = Session(obj["header"], fs_kind)
+def replay_session(obj: dict, fs_kind: str | None = None) -> Session:
+    """re-execute a recorded script (replay file) on the current tree, on the kind of filestore it was
+    recorded on (the library's NativeFilestore in a sandbox, or the harness's in-memory one)"""
+    s = Session(obj["header"], fs_kind or obj.get("fs_kind") or "mem")
     for op in obj["ops"]:
         s.do(op)
     return s
